@@ -12,7 +12,7 @@
 enum { FT_FLIP = 0, FT_TRUNC, FT_BURST, FT_EXTEND, FT_MAGIC, FT_VERSION, FT_TORN, FT_FLIPRANGE, FT_TRUNCRANGE, FT_NKINDS };
 static const char *ft_name[] = { "flip", "trunc", "burst", "extend", "magic", "version", "torn", "fliprange", "truncrange" };
 typedef struct Fault { int kind; long a, b; unsigned long c; int via; } Fault;   /* via: 0 standalone, 1 daemon */
-typedef struct SPlan { char prog[32]; int tok; int nf; Fault f[64]; } SPlan;
+typedef struct SPlan { char prog[32]; int tok; int nf; Fault f[64]; bool sweep; } SPlan;
 
 static uint32_t my_crc32(const uint8_t *d, size_t n) {
     uint32_t c = 0xFFFFFFFFu;
@@ -26,18 +26,18 @@ static void plan_gen(SPlan *P, uint64_t seed, const RunOpts *o) {
     sim_seed(seed); default_knobs();
     K.short_read_pm = sim_rndn(2) ? (int)sim_rndn(300) : 0;
     int np = corpus_nprogs();
-    if (!quick && seed % 2 == 0) {
+    if (!quick && seed >= o->base && (seed - o->base) % 2 == 0) {
         /* thorough: exhaustive sweeps of single-bit flips and truncation lengths, 512 positions per run */
-        uint64_t idx = seed / 2;
+        uint64_t idx = (seed - o->base) / 2;
         /* find file + chunk */
         for (int pass = 0; pass < 2; pass++) for (int i = 0; i < np; i++) {
-            Module *m = corpus_find(corpus_prog(i), 0); if (!m) continue;
+            Module *m = corpus_find(corpus_prog(i), pass); if (!m) continue;
             uint64_t bits = (uint64_t)(m->n - NVM_HEADER_SIZE) * 8; uint64_t chunks = (bits + 511) / 512;
             if (idx < chunks) {
-                snprintf(P->prog, sizeof P->prog, "%s", corpus_prog(i)); P->tok = 0;
+                snprintf(P->prog, sizeof P->prog, "%s", corpus_prog(i)); P->tok = pass;
                 P->f[0] = (Fault){ FT_FLIPRANGE, (long)(NVM_HEADER_SIZE * 8 + idx * 512), (long)(NVM_HEADER_SIZE * 8 + (idx + 1) * 512 < m->n * 8 ? NVM_HEADER_SIZE * 8 + (idx + 1) * 512 : m->n * 8), 0, 0 };
                 P->f[1] = (Fault){ FT_TRUNCRANGE, (long)(idx * 64 < m->n ? idx * 64 : m->n), (long)((idx + 1) * 64 < m->n ? (idx + 1) * 64 : m->n), 0, 0 };
-                P->nf = 2; return;
+                P->nf = 2; P->sweep = true; return;
             }
             idx -= chunks;
         }
@@ -143,6 +143,7 @@ static bool judge(Result *r, const char *what, const uint8_t *d, size_t n, const
         if (my_crc32(d + NVM_HEADER_SIZE, n - NVM_HEADER_SIZE) == stored && memcmp(d, orig, 8) == 0) { n_collision++; return true; }
     }
     n_inst++;
+    sim_forget_dead();
     Outcome oc = via ? consume_daemon(d, n) : consume_vm(d, n);
     if (via) n_daemon++;
     const char *clause = NULL;
@@ -244,7 +245,9 @@ static void fam_run(uint64_t seed, const RunOpts *o, Result *r) {
     r->nontrivial = n_inst > 0;
     snprintf(r->class_key, sizeof r->class_key, "%s.%d/%llu", P.prog, P.tok, (unsigned long long)seed);
     probe(r, "fault_instances", n_inst); probe(r, "true_crc_collisions_skipped", n_collision); probe(r, "unchanged_skipped", n_unchanged);
-    probe(r, "via_daemon", n_daemon); probe(r, "control_arm_ok", 1);
+    probe(r, "via_daemon", n_daemon); probe(r, "control_arm_ok", 1); probe(r, "exhaustive_sweep_chunks", P.sweep);
+    { uint64_t total = 0; for (int tk = 0; tk < 2; tk++) for (int i = 0; i < corpus_nprogs(); i++) { Module *cm = corpus_find(corpus_prog(i), tk); if (cm) total += ((uint64_t)(cm->n - NVM_HEADER_SIZE) * 8 + 511) / 512; }
+      buf_printf(&r->extra, "\"sweep_total_chunks\":%llu", (unsigned long long)total); }
     for (int k = 0; k < FT_NKINDS; k++) { char nm[32]; snprintf(nm, sizeof nm, "kind_%s", ft_name[k]); probe(r, nm, kinds_done[k]); }
 }
 Family fam_store = { "store", fam_run, fam_prepare };
